@@ -282,6 +282,33 @@ def cells_of(dset):
         yield index, float(val[index]), float(err[index])
 
 
+def check_keff(item, row, err, where, rec, case):
+    '''A rewritten keff row: estimator label, error, correlation.'''
+    rec.count('rewritten_keff_rows_found')
+    if row['estimator'] and item.get('keff_estimator') != row['estimator']:
+        rec.violation('keff-attached-to-another-estimator',
+                      f'{where}: found under '
+                      f'{item.get("keff_estimator")!r}', case)
+    if row['sigma'] is None:
+        if not math.isnan(err):
+            rec.violation('error-invented-for-not-converged-keff',
+                          f'{where}: error {err!r}', case)
+    else:
+        want = row['score'] * row['sigma'] / 100.0
+        good = close(err, want) or (row['abs_sigma'] is not None and
+                                    close(err, row['abs_sigma'], 1e-5))
+        if not good:
+            rec.violation('error-is-not-value-times-sigma-percent',
+                          f'{where}: error {err!r}, expected {want!r}', case)
+    if row['correlation'] is not None:
+        corr = item['results'].get('correlation_keff')
+        got = None if corr is None else float(np.asarray(corr.value))
+        if got != row['correlation']:
+            rec.violation('keff-correlation-differs', f'{where}: '
+                          f'correlation {got!r}, printed '
+                          f'{row["correlation"]!r}', case)
+
+
 def rewrite_case(seed, listing, rep, rec):
     # pylint: disable=too-many-locals,too-many-branches,too-many-statements
     from valjean.eponine.tripoli4.parse import Parser, ParserException
@@ -340,7 +367,7 @@ def rewrite_case(seed, listing, rep, rec):
                         inside += 1
                         hits.setdefault(val, []).append(
                             (item, rname, dset, index, err))
-                    if inside:
+                    if inside and rname != 'keff':
                         touched.append((item, rname, dset, cells))
             for row in expected:
                 got = hits.get(row['score'], [])
@@ -355,6 +382,10 @@ def rewrite_case(seed, listing, rep, rec):
                 item, rname, dset, index, err = got[0]
                 rec.count('rewritten_rows_found')
                 matched.add(row['score'])
+                if row['kind'] == 'keff':
+                    check_keff(item, row, err, where, rec, case)
+                    rec.seen((listing, 'keff', row['estimator']))
+                    continue
                 want_e = row['score'] * row['sigma'] / 100.0
                 if not close(err, want_e):
                     rec.violation('error-is-not-value-times-sigma-percent',
